@@ -323,8 +323,55 @@ static std::string step(const Toks& t)
 		peer.join();
 		return hex(peer.got);
 	}
-	if (op == "duplex" && t.size() == 7 && role(t[1], ic))
+	if (op == "copysend" && t.size() == 4 && role(t[1], ic))
 	{
+		// a copy of the WebSocket is taken while another thread is inside send() (the peer reads late, so that send
+		// blocks); the copy must be able to send afterwards, and both frames must arrive whole
+		std::string st = unhex(t[2]);
+		int size = (int)num(t[3]);
+		if (st.size() != 32 || size < 1 || size > (8 << 20)) return "bad-op";
+		int fd[2];
+		if (socketpair(AF_UNIX, SOCK_STREAM, 0, fd) != 0) return "err socketpair";
+		std::string in;
+		std::thread peer([&]() { usleep(150000); char buf[65536]; ssize_t n; while ((n = ::read(fd[1], buf, sizeof buf)) > 0) in.append(buf, (size_t)n); });
+		WS* ws = new WS(Socket(new Socket_(fd[0])), ic);
+		ws->setRng(st);
+		std::string big((size_t)size, 0);
+		for (int j = 0; j < size; j++) big[(size_t)j] = (char)(j % 251);
+		std::thread A([&]() { ws->send((const byte*)big.data(), size, WebSocket::FRAME_BINARY); });
+		usleep(50000);
+		WS* w2 = new WS(*ws); // copied while A holds the send lock
+		A.join();
+		std::atomic<bool> done(false);
+		std::thread B([&]() { w2->send((const byte*)"hello", 5, WebSocket::FRAME_BINARY); done = true; });
+		for (int i = 0; i < 300 && !done; i++) usleep(10000);
+		if (!done) { puts("copy-send-blocked"); fflush(stdout); _exit(3); } // the thread can never be joined
+		B.join();
+		delete w2;
+		delete ws;
+		peer.join();
+		::close(fd[1]);
+		// two whole frames
+		std::string desc; size_t pos = 0; int k = 0;
+		while (pos < in.size()) {
+			if (in.size() - pos < 2) return "corrupt: short header";
+			unsigned char b0 = (unsigned char)in[pos], b1 = (unsigned char)in[pos + 1];
+			unsigned long long len = b1 & 127; size_t h = 2;
+			if (len == 126) { if (in.size() - pos < 4) return "corrupt: short header"; len = ((unsigned char)in[pos + 2] << 8) | (unsigned char)in[pos + 3]; h = 4; }
+			else if (len == 127) { if (in.size() - pos < 10) return "corrupt: short header"; len = 0; for (int i = 2; i < 10; i++) len = (len << 8) | (unsigned char)in[pos + i]; h = 10; }
+			bool masked = (b1 & 0x80) != 0;
+			if (masked) h += 4;
+			if (b0 != 0x82 || masked != ic || in.size() - pos < h + len) return "corrupt: frame " + str(b0) + " len " + str((long long)len);
+			std::string pl = in.substr(pos + h, (size_t)len);
+			if (masked) for (size_t i = 0; i < pl.size(); i++) pl[i] = (char)(pl[i] ^ in[pos + h - 4 + (i & 3)]);
+			desc += (k ? "," : "") + str((long long)len) + ":" + showBytes(pl);
+			k++; pos += h + (size_t)len;
+		}
+		return "data=" + str(k) + " " + desc;
+	}
+	if (op == "duplex" && (t.size() == 7 || (t.size() == 8 && t[7] == "copy")) && role(t[1], ic))
+	{
+		bool viaCopy = t.size() == 8; // the sender uses a copy of the WebSocket taken beforehand: copies share the send lock
 		// one thread keeps calling receive() (the peer pings all the time), another one sends: what the peer reads
 		// must be whole frames — the data messages in order and one pong per ping in order
 		std::string st = unhex(t[2]);
@@ -339,13 +386,15 @@ static std::string step(const Toks& t)
 			verdict.clear();
 			WS ws(Socket(new Socket_(fd[0])), ic);
 			ws.setRng(st);
+			WS wcopy(ws);
+			WS& wsend = viaCopy ? wcopy : ws;
 			std::thread reader([&]() { for (int k = 0; k < 100000 && !ws.closed(); k++) ws.receive(); });
 			std::thread sender([&]() {
 				for (int i = 0; i < nmsg; i++) {
 					std::string pl((size_t)size, 0);
 					for (int j = 0; j < size; j++) pl[(size_t)j] = (char)((seed + i * 31 + j) % 251);
 					Exact d(pl);
-					ws.send((const byte*)d.p, (int)d.n, WebSocket::FRAME_BINARY);
+					wsend.send((const byte*)d.p, (int)d.n, WebSocket::FRAME_BINARY);
 				}
 			});
 			// the peer: raw socket, own frame parser
